@@ -19,11 +19,11 @@ Px  == [imin |-> 10, imax |-> 10, lmin |-> 10, lmax |-> 10, smin |-> 1, smax |->
 (* the driver's borrowing presets bp = 0 (kink, skip smaller side), 1 (exponent model), 3 (kink, no skip,
    open interest ignored for usage) at DECIMALS = 1 *)
 Kinds == <<
-  [b_factor |-> <<0, 0>>, b_exp |-> <<10, 10>>, b_skip |-> TRUE,  k_opt |-> 7, k_base |-> 1, k_above |-> 4,
+  [b_factor |-> <<0, 0>>, b_exp |-> <<10, 10>>, b_skip |-> TRUE,  k_opt |-> 7, k_base |-> 5, k_above |-> 20,
    oi_reserve |-> 10, max_oi |-> 4000, ignore_oi |-> FALSE, bp |-> 0],
-  [b_factor |-> <<2, 3>>, b_exp |-> <<10, 10>>, b_skip |-> FALSE, k_opt |-> 0, k_base |-> 0, k_above |-> 0,
+  [b_factor |-> <<10, 15>>, b_exp |-> <<10, 10>>, b_skip |-> FALSE, k_opt |-> 0, k_base |-> 0, k_above |-> 0,
    oi_reserve |-> 10, max_oi |-> 4000, ignore_oi |-> FALSE, bp |-> 1],
-  [b_factor |-> <<0, 0>>, b_exp |-> <<10, 10>>, b_skip |-> FALSE, k_opt |-> 5, k_base |-> 2, k_above |-> 1,
+  [b_factor |-> <<0, 0>>, b_exp |-> <<10, 10>>, b_skip |-> FALSE, k_opt |-> 5, k_base |-> 10, k_above |-> 5,
    oi_reserve |-> 10, max_oi |-> 4000, ignore_oi |-> TRUE, bp |-> 3] >>
 C == Kinds[kind]
 (* liquidity is tiny on purpose so that usage is high and the rates are non-zero *)
